@@ -112,6 +112,29 @@ struct Interp : World<Spline, TM, SM>
             }
             break;
         }
+        case OK_HUGE_WP:
+        {
+            // huge but finite coordinates (their sum overflows): still a valid problem by the statement
+            int i = (int)(((pos % (N + 1)) + (N + 1)) % (N + 1));
+            for (int d = 0; d < DIM; ++d) p.P(i, d) = (pos2 & 1) ? DBL_MAX : 1.2e308;
+            break;
+        }
+        case OK_HUGE_BC:
+        {
+            int f = (int)(((pos % 6) + 6) % 6);
+            for (int d = 0; d < DIM; ++d) bc_field<DIM>(p.bc, f)(d) = (d & 1) ? -DBL_MAX : DBL_MAX;
+            break;
+        }
+        case OK_HUGE_TIME: set_time(1e300); break;
+        case OK_HUGE_START:
+            p.t0 = (pos & 1) ? -1e300 : 1e300;
+            if (p.by_points)
+            {
+                // keep the differences exact: all time points become the huge start (zero durations would be invalid),
+                // so only the durations overload carries this case
+                p.by_points = false;
+            }
+            break;
         case BAD_ROWS_PLUS: p.P.conservativeResize(p.P.rows() + 1, DIM); p.P.row(p.P.rows() - 1).setZero(); break;
         case BAD_ROWS_MINUS: p.P.conservativeResize(p.P.rows() - 1, DIM); break;
         case BAD_EMPTY_TIMES:
@@ -158,10 +181,22 @@ struct Interp : World<Spline, TM, SM>
         ctx.count(want ? "probe.verdict_valid" : "probe.verdict_invalid");
     }
 
-    void do_set_init(int k, int N, uint64_t seed, bool by_points, int bad, int64_t pos, int64_t pos2, int domain)
+    void do_set_init(int k, int N, uint64_t seed, bool by_points, int bad, int64_t pos, int64_t pos2, int domain, bool only_start_time = false)
     {
         Handle &H = h[k];
         Problem<DIM> p = prob::gen_problem<DIM>(seed, N, ORDER, domain, by_points);
+        if (only_start_time && H.m.configured && H.m.valid && !H.m.rejected_early)
+        {
+            // the same problem again, only the start time differs
+            double nt0 = p.t0;
+            p = H.m.prob;
+            p.by_points = false;
+            p.t0 = nt0;
+            p.tp[0] = nt0;
+            for (int i = 0; i < p.N(); ++i) p.tp[i + 1] = p.tp[i] + p.T[i];
+            bad = BAD_NONE;
+            ctx.count("probe.reinit_only_start_time");
+        }
         // waypoints that the active spatial map can represent (sub-manifold maps)
         {
             SM sm = this->sm_of(H.m);
@@ -184,6 +219,16 @@ struct Interp : World<Spline, TM, SM>
                   "setInitState (" << (by_points ? "time points" : "durations") << ", fault " << kBadNames[bad] << ", N=" << p.N() << ") returned " << got
                                    << " but the predicate gives " << want);
         check_validity(k, "right after setInitState", true);
+        if (bad >= OK_HUGE_WP && bad <= OK_HUGE_START)
+        {
+            // accepted, but not something to evaluate: put a sane problem back
+            Problem<DIM> q = prob::gen_problem<DIM>(seed ^ 0x9e37, std::max(1, N), ORDER, domain, false);
+            bool ok = W::set_init(*H.o, q);
+            H.m.prob = q;
+            H.m.valid = true;
+            H.m.rejected_early = false;
+            SIM_CHECK(ok, "init_verdict", "a well-scaled problem was rejected right after a huge-but-finite one");
+        }
     }
 
     WS *select_ws(int sel, int k, int N, std::unique_ptr<WS> &temp)
@@ -266,8 +311,14 @@ struct Interp : World<Spline, TM, SM>
         CC ca;
         ca.prog = &prog;
         ca.nseg = m.prob.N();
-        int af = ((abort_functor % 5) + 5) % 5;
-        ca.abort_functor = af == 4 ? 0 : af;
+        int af = ((abort_functor % 6) + 6) % 6;
+        ca.abort_functor = (af == 4 || af == 5) ? 0 : af;
+        if (af == 5)
+        {
+            // condition-based failure: the running cost fails on every sample of two (or one) segments
+            const int N = m.prob.N();
+            ca.abort_seg_mask = (1ULL << (abort_call % N)) | (1ULL << ((abort_call / 7) % N));
+        }
         long total = ca.abort_functor == 3 ? (long)m.prob.N() * (m.K + 1) : 1;
         ca.abort_call = (long)(((abort_call % total) + total) % total);
         Eigen::VectorXd xa = this->gen_x(m, xseed ^ 0x5bd1e995ULL, 0);
@@ -293,6 +344,7 @@ struct Interp : World<Spline, TM, SM>
         }
         hk.abort_map_armed = false;
         if (af == 4 && hk.abort_map_fired) ca.abort_functor = 4;
+        if (af == 5) ca.abort_functor = 5;
         if (!w) H.m.has_internal_ws = true;
         if (thrown)
         {
@@ -318,7 +370,7 @@ struct Interp : World<Spline, TM, SM>
         cc.trace = (checks & CHK_TRACE) ? &tr : nullptr;
         env::SimExecutor ex = make_exec(ex_mode, ex_seed, workers, m.prob.N());
         if (ex.mode != 0) ctx.mark_nontrivial();
-        if (abort_functor % 5 != 0)
+        if (abort_functor % 6 != 0)
         {
             aborted_eval(H, xseed, w, ex, three, abort_functor, abort_call);
             if (!w) snapshot_exposed(k);
@@ -337,7 +389,9 @@ struct Interp : World<Spline, TM, SM>
         else
             got = W::call_eval(*H.o, x, cc, w, ex, three);
         if (!w) { H.m.has_internal_ws = true; ctx.count("probe.builtin_workspace_used"); }
-        SIM_CHECK(std::isfinite(got.cost), "cost_finite", "cost is not finite on a well-scaled problem: " << got.cost);
+        const bool finite_expected = prog.style != 2 && xmode != 5;
+        if (finite_expected) SIM_CHECK(std::isfinite(got.cost), "cost_finite", "cost is not finite on a well-scaled problem: " << got.cost);
+        if (!std::isfinite(got.cost)) { checks &= ~(CHK_TRACE | CHK_FD); ctx.count("probe.non_finite_cost"); }
         if (checks & CHK_TWIN) this->check_vs_twin(m, x, three, got, "evaluate");
         if (checks & CHK_TRACE)
         {
@@ -375,6 +429,29 @@ struct Interp : World<Spline, TM, SM>
             target = dst;
         }
         Handle &H = h[target];
+        const bool tiny_durations = (o.I(5) & 2) != 0;
+        const bool ws_copies = (o.I(5) & 4) != 0;
+        if (ws_copies)
+        {
+            // the evaluators' workspaces will be copies of one workspace that has already been used, and the
+            // integration resolution changes between the copy and the concurrent phase
+            if (!ws[0]) ws[0].reset(new WS());
+            CC c0;
+            c0.prog = &prog;
+            c0.nseg = H.m.prob.N();
+            Eigen::VectorXd x0 = this->gen_x(H.m, seed ^ 0x77, 0);
+            (void)W::call_eval(*H.o, x0, c0, ws[0].get(), SplineTrajectory::SerialExecutor(), true);
+            this->ws_last_user[0] = target;
+            this->ws_last_N[0] = H.m.prob.N();
+        }
+        std::vector<std::unique_ptr<WS>> copies;
+        if (ws_copies)
+        {
+            for (int e = 0; e < n; ++e) copies.emplace_back(new WS(*ws[0]));
+            H.m.K = 1 + (H.m.K + 7) % 64;
+            H.o->setIntegralNumSteps(H.m.K);
+            ctx.count("probe.concurrent_on_workspace_copies_after_K_change");
+        }
         const Model m = H.m;
         if (cold)
         {
@@ -396,10 +473,12 @@ struct Interp : World<Spline, TM, SM>
         const bool aborts = (o.I(5) & 1) != 0;
         for (int e = 0; e < n; ++e)
         {
-            xs[e] = this->gen_x(m, r.next(), 0);
+            xs[e] = this->gen_x(m, r.next(), tiny_durations ? 5 : 0);
             if (aborts && r.chance(0.5)) { abort_f[e] = 1 + (int)r.below(3); abort_c[e] = (int64_t)r.below(1u << 20); }
             // each evaluator has its own workspace; the first ones may be veterans from the pool
-            if (e < W::kWS && r.chance(0.4))
+            bool veteran = e < W::kWS && r.chance(0.4);
+            if (ws_copies) wsp[e] = copies[(size_t)e].get();
+            else if (veteran)
             {
                 std::unique_ptr<WS> tmp;
                 wsp[e] = select_ws(1 + e, target, m.prob.N(), tmp);
@@ -511,6 +590,34 @@ struct Interp : World<Spline, TM, SM>
         env::SimTimeCost<DIM> tc{&cc};
         env::SimWaypointCost<DIM> wc{&cc};
         env::SimRunningCost<DIM> rc{&cc};
+        if (o.I(9) > 0)
+        {
+            // the self-check is cancelled from inside a functor somewhere in its finite-difference loop; the caller catches
+            // that and goes on using the same workspace: the following evaluation must be an ordinary one
+            CC ca;
+            ca.prog = &prog;
+            ca.nseg = N;
+            ca.abort_functor = 3;
+            long per_eval = (long)N * (m.K + 1);
+            ca.abort_call = per_eval + (long)(o.I(9) % std::max<long>(1, 2L * n * per_eval));
+            env::SimTimeCost<DIM> tca{&ca};
+            env::SimWaypointCost<DIM> wca{&ca};
+            env::SimRunningCost<DIM> rca{&ca};
+            bool thrown = false;
+            try
+            {
+                if (three) (void)H.o->checkGradients(x, tca, wca, rca, w, eps, tol);
+                else (void)H.o->checkGradients(x, tca, rca, w, eps, tol);
+            }
+            catch (const InjectedAbort &) { thrown = true; }
+            if (!w) H.m.has_internal_ws = true;
+            if (thrown) { ctx.count("fault.callback_abort_inside_selfcheck"); ctx.mark_nontrivial(); }
+            CC cb;
+            cb.prog = &prog;
+            cb.nseg = N;
+            EvalResult after = W::call_eval(*H.o, x, cb, w, SplineTrajectory::SerialExecutor(), three);
+            this->check_vs_twin(m, x, three, after, "evaluate after a cancelled checkGradients on the same workspace");
+        }
         typename Opt::GradientCheckResult res;
         if (three) res = defaults ? H.o->checkGradients(x, tc, wc, rc, w) : H.o->checkGradients(x, tc, wc, rc, w, eps, tol);
         else res = defaults ? H.o->checkGradients(x, tc, rc, w) : H.o->checkGradients(x, tc, rc, w, eps, tol);
@@ -600,7 +707,7 @@ struct Interp : World<Spline, TM, SM>
         hk.yield_in_executor = (ycfg & 4) != 0;
         Sched::get().set_sticky((int)(200 + (plan.CI(1) % 7) * 100));
         const int domain = 2;
-        prog = env::CostProgram<DIM>::make((uint64_t)plan.CI(2, 1), 48, ORDER, plan.CI(3) & 1);
+        prog = env::CostProgram<DIM>::make((uint64_t)plan.CI(2, 1), 48, ORDER, plan.CI(3) & 1, (int)(((plan.CI(7) % 4) + 4) % 4));
         for (int q = 0; q < W::kUserMaps; ++q)
         {
             user_tm.emplace_back(new TM(TMTraits<TM>::make(q % 3, 0.75 + 0.5 * q)));
@@ -626,7 +733,7 @@ struct Interp : World<Spline, TM, SM>
                 int k = pick(o.I(0), false);
                 if (k < 0) break;
                 int N = 1 + (int)(((o.I(1) - 1) % 12 + 12) % 12);
-                do_set_init(k, N, (uint64_t)o.I(2), (o.I(3) & 1) != 0, (int)o.I(4), o.I(5), o.I(6), domain);
+                do_set_init(k, N, (uint64_t)o.I(2), (o.I(3) & 1) != 0, (int)o.I(4), o.I(5), o.I(6), domain, (o.I(7) & 1) != 0);
                 ctx.count("fault.reconfig");
                 break;
             }
@@ -697,7 +804,7 @@ struct Interp : World<Spline, TM, SM>
             {
                 int k = pick(o.I(0), true);
                 if (k < 0) break;
-                do_eval(k, (uint64_t)o.I(1), (int)(o.I(2) & 3), (int)o.I(3), (int)o.I(4), (uint64_t)o.I(5), (int)o.I(6), (o.I(7) & 1) != 0, (int)o.I(8), (int)o.I(9), o.I(10));
+                do_eval(k, (uint64_t)o.I(1), (int)(((o.I(2) % 6) + 6) % 6), (int)o.I(3), (int)o.I(4), (uint64_t)o.I(5), (int)o.I(6), (o.I(7) & 1) != 0, (int)o.I(8), (int)o.I(9), o.I(10));
                 break;
             }
             case OP_CONCURRENT: do_concurrent(o); break;
@@ -708,11 +815,19 @@ struct Interp : World<Spline, TM, SM>
                 if (s < 0) break;
                 int dst = (int)(((o.I(1) % W::kHandles) + W::kHandles) % W::kHandles);
                 if (dst == s) dst = (dst + 1) % W::kHandles;
+                const bool by_move = (o.I(3) & 1) != 0 && live_count() >= 1;
                 if (kind == OP_COPY)
                 {
                     if (h[dst].o) this->free_opt(h[dst].o);
-                    h[dst].o = this->new_opt(*h[s].o);
+                    if (by_move) { h[dst].o = this->new_opt(std::move(*h[s].o)); ctx.count("probe.move_constructed"); }
+                    else h[dst].o = this->new_opt(*h[s].o);
                     ctx.count("probe.copy_constructed");
+                }
+                else if (by_move)
+                {
+                    if (!h[dst].o) construct(dst, 2, 3.0, 3, 2.0);
+                    *h[dst].o = std::move(*h[s].o);
+                    ctx.count("probe.move_assigned");
                 }
                 else
                 {
@@ -727,6 +842,28 @@ struct Interp : World<Spline, TM, SM>
                 exposed_known[dst] = false;
                 if (h[dst].m.has_internal_ws) { exposed_snapshot[dst] = exposed_snapshot[s]; exposed_known[dst] = exposed_known[s]; }
                 ctx.mark_nontrivial();
+                if (by_move)
+                {
+                    // the moved-from object is in a valid but unspecified state: it is destroyed, the target must stand alone
+                    Eigen::VectorXd xm;
+                    this->free_opt(h[s].o);
+                    h[s].o = nullptr;
+                    h[s].m = Model();
+                    exposed_known[s] = false;
+                    ctx.count("fault.src_destroy");
+                    if (h[dst].m.valid)
+                    {
+                        xm = this->gen_x(h[dst].m, (uint64_t)o.I(2), 0);
+                        CC cc;
+                        cc.prog = &prog;
+                        cc.nseg = h[dst].m.prob.N();
+                        WS w2;
+                        EvalResult b = W::call_eval(*h[dst].o, xm, cc, &w2, SplineTrajectory::SerialExecutor(), true);
+                        this->check_vs_twin(h[dst].m, xm, true, b, "evaluate on a moved-to optimizer after the source was destroyed");
+                    }
+                    check_exposed_untouched("after move", -1);
+                    break;
+                }
                 check_exposed_untouched("after copy/assign", -1);
                 // the copy evaluates identically to its source, right away
                 if (h[s].m.valid)
